@@ -44,6 +44,9 @@ CHECKS = {
  "C21": ("exploration", "reference bucketing vs real datum, compiled histogram and exports",
    "3k/200k (declaration, observation sequence) cases with observations at/just below/just above every bound, negatives, ±0, ±Inf, NaN, through datum.Observe and through compiled programs fed log lines; bucket counts, count, bit-exact sum, and the Prometheus/JSON exported upper bounds and cumulative counts compared.",
    "Known finding C21-b (first bound <= 0 not exported) classified by exact shape; float sum compared in observation order.", "§4 C21"),
+ "C22": ("exploration", "reference formatters + JSON round-trip decoder vs real handlers and push path",
+   "2.1k/100k random stores (pairwise distinct values and timestamps so another label set's data is distinguishable; every kind/type; 0-3 keys incl. unsorted order; non-finite floats; three prefixes; random hostnames) exported via /json, /varz, /graphite and the graphite/statsd/collectd push path (one record per write through the verif write hook); records compared as multisets (label-pair order canonicalised) with reference formatters; JSON decoded field by field.",
+   "Label values exclude whitespace and the formats' separators, as the quantifier states; out-of-scope metrics' records ignored; known finding C22-b (JSON with non-finite floats).", "§4 C22"),
 }
 NOT_APPLICABLE = {}
 
